@@ -1,4 +1,4 @@
-import DaeVerif.C19.Model
+import DaeVerif.C19.Lifecycle
 import DaeVerif.Common.Proto
 /-! Line-protocol driver for C19 (op grammar: see harness/overlay/control/c19_test.go,
 harness/c19/c19_native.c and checks/c19.py).  Evaluates the same definitions the theorems are about. -/
@@ -66,13 +66,31 @@ def connAnswer (outbound l4 ip dom : String) : String :=
   | some o => optStr (goConnKey? o ⟨l4', ip', dom'⟩)
   | none => "bad-op"
 
+/-- `none` | `idx:<n>` | `pr:<a>-<b>` | `byte:<v>` | `pname:<hex>` -/
+def parseMsValue? (s : String) : Option (List Nat) :=
+  match s.splitOn ":" with
+  | ["none"] => some (zeros 16)
+  | ["idx", n] => n.toNat?.map goSetIndexValue
+  | ["byte", n] => n.toNat?.map goByteValue
+  | ["pname", h] => (hexToBytes? h).map goPnameValue
+  | ["pr", ab] =>
+    match ab.splitOn "-" with
+    | [a, b] => do let x ← a.toNat?; let y ← b.toNat?; pure (goPortRangeValue x y)
+    | _ => none
+  | _ => none
+
+/-- `RetrieveRoutingResult` finds the entry: in `conn_state_map` under the flow's own key for TCP/UDP with
+routing metadata, else in `routing_handoff_map` under the flow's own key (any protocol). -/
+def routeLookupFinds (wh : String) (proto : Nat) : Bool :=
+  (wh == "conn" && (proto == 6 || proto == 17)) || wh == "handoff"
+
 def allConstPairs : List (Name × Name) := specConstPairs ++ fixedConstPairs
 
 def handle (line : String) : String :=
   match words line with
   -- ---------------------------------------------------------------- diagnostics (checks/c19.py)
   | ["counts"] =>
-    s!"obl={layoutObligations.length} const={allConstPairs.length} limit={limitChecks.length} map={Gen.cMaps.length} mapio={Gen.goMapIO.length} cclass={Gen.cConsts.length} fieldlit={Gen.goFieldLiterals.length} param={paramContents.length} endian={machineBigEndian.length} wiretype={exchangedTypes.length}"
+    s!"obl={layoutObligations.length} const={allConstPairs.length} limit={limitChecks.length} map={Gen.cMaps.length} mapio={Gen.goMapIO.length} buildsite={Gen.goBuildSites.length} cclass={Gen.cConsts.length} fieldlit={Gen.goFieldLiterals.length} param={paramContents.length} endian={machineBigEndian.length} wiretype={exchangedTypes.length}"
   | ["obl", i] =>
     match i.toNat? >>= fun k => layoutObligations[k]? with
     | some (p, a) =>
@@ -105,6 +123,20 @@ def handle (line : String) : String :=
       else if !constKeyOk c then s!"BAD constant map key {c.const} used on {nameStr c.map} ({c.what}, result kind `{nameStr c.kind}`, at {c.at_}) is not the C constant it stands for"
       else "ok " ++ nameStr c.map ++ " " ++ c.what
     | none => "none"
+  | ["buildsite", i] =>
+    match i.toNat? >>= fun k => Gen.goBuildSites[k]? with
+    | some b =>
+      if buildSiteOk b then
+        (if !kernelBound b.typ then "ok (type never handed to the kernel) " else if buildSiteClassified b then "ok (classified) " else "ok (auto-executed helper constructor) ")
+          ++ nameStr b.fn ++ " " ++ nameStr b.typ ++ " " ++ nameStr b.kind
+      else
+        let unset := unsetFields b
+        s!"UNCLASSIFIED {nameStr b.fn} constructs/modifies a {nameStr b.typ} ({nameStr b.kind} at {b.at_}; fields set: {b.fields.map nameStr}"
+          ++ (if (nameEq b.kind n!"zero" || nameEq b.kind n!"lit") && !b.toCall && !unset.isEmpty then s!"; NEVER set: {unset.map nameStr}" else "")
+          ++ "), a type the control plane hands to the kernel, and no harness stream executes that function against the kernel-side constructor: execute it in harness/overlay/control/c19*_test.go and add `(n!\"" ++ nameStr b.fn ++ "\", n!\"" ++ nameStr (baseTypeName b.typ) ++ "\", \"<stream>\")` to `buildSiteClass` (lean/DaeVerif/C19/Lifecycle.lean), or give the helper one of the shapes the generated harness executes by itself (autoShape?)"
+    | none => "none"
+  | ["ctorsigs"] =>
+    ";".intercalate (Gen.goCtorSigs.map fun c => s!"{nameStr c.fn}:{nameStr c.typ}:{((autoShape? c).map nameStr).getD "-"}:{((lookupNameOpt c.fn ctorMeaning).map nameStr).getD "-"}")
   | ["cclass", i] =>
     match i.toNat? >>= fun k => Gen.cConsts[k]? with
     | some c =>
@@ -330,6 +362,29 @@ def handle (line : String) : String :=
     match parseEndian? e, hexToBytes? hex with
     | some e, some v => let r := cReadPortRange e v; s!"{r.1}-{r.2}"
     | _, _ => "bad-op"
+  -- ---------------------------------------------------------------- helper constructors: the kernel's derivations
+  | ["ctorap", _fn, e, src, sport, dst, dport, proto] =>
+    match parseEndian? e, parseAddr? src, sport.toNat?, parseAddr? dst, dport.toNat?, proto.toNat? with
+    | some e, some s, some sp, some d, some dp, some p =>
+      " ".intercalate ((apCandidates e ⟨s, sp⟩ ⟨d, dp⟩ p).map fun c => nameStr c.1 ++ "=" ++ bytesToHex c.2)
+    | _, _, _, _, _, _ => "bad-op"
+  | ["ctorkk", _fn, hex] =>
+    match hexToBytes? hex with
+    | some k => " ".intercalate ((kkCandidates k).map fun c => nameStr c.1 ++ "=" ++ bytesToHex c.2)
+    | none => "bad-op"
+  | ["ctorpfx", _fn, e, pfx] =>
+    match parseEndian? e, parsePrefix? pfx with
+    | some e, some p => "lpm=" ++ bytesToHex (goLpmKey e p)
+    | _, _ => "bad-op"
+  | ["rlookup", wh, proto] =>
+    match proto.toNat? with
+    | some p => if routeLookupFinds wh p then "found" else "notfound"
+    | none => "bad-op"
+  | ["msimg", e, _enc, mt, not_, ob, must, mark, val] =>
+    let num (s : String) : Option Nat := ((s.splitOn "=").getD 1 "").toNat?
+    match parseEndian? e, goC? (nameCat n!"consts." (nameOf mt)), num not_, num ob, num must, num mark, parseMsValue? val with
+    | some e, some t, some n, some o, some m, some k, some v => bytesToHex (goMatchSetImage e v (n == 1) t o (m == 1) k)
+    | _, _, _, _, _, _, _ => "bad-op"
   -- ---------------------------------------------------------------- generator
   | ["regen"] => "go=same c=same"   -- the checked-in generated files are the generator's output (oracle on the implementation side)
   | "gen" :: rest =>
@@ -338,4 +393,54 @@ def handle (line : String) : String :=
     | none => "bad-op"
   | _ => "bad-op"
 
-def main : IO Unit := lineLoop handle
+/-! ### Stateful part: the conn_state_map key lifecycle (§8 of Lifecycle.lean) -/
+
+structure DrvState where
+  w : UWorld
+  ids : List (Nat × Key)
+
+def keyLabel (ids : List (Nat × Key)) (k : Key) : String :=
+  match ids.find? (fun x => x.2 == k) with
+  | some x => toString x.1
+  | none => "x" ++ bytesToHex k
+
+/-- labels sorted as strings (the harness sorts with Go's `sort.Strings`) -/
+def sortedLabels (ls : List String) : String :=
+  if ls.isEmpty then "-" else ",".intercalate (ls.toArray.qsort (· < ·)).toList
+
+def kernelStr (st : DrvState) : String := "kernel=" ++ sortedLabels (st.w.kernel.map (keyLabel st.ids))
+
+def epStr (st : DrvState) (i : Nat) : String :=
+  "held=" ++ sortedLabels (((st.w.eps[i]?).map (·.keys)).getD [] |>.map (keyLabel st.ids)) ++ " " ++ kernelStr st
+
+def handleS (st : DrvState) (line : String) : DrvState × String :=
+  match words line with
+  | ["uhist", n, tl] =>
+    match n.toNat?, (tl.splitOn ",").mapM (·.toNat?) with
+    | some n, some tl => (⟨UWorld.init n tl, []⟩, "ok")
+    | _, _ => (st, "bad-op")
+  | ["ukseen", id, hex] =>
+    match id.toNat?, hexToBytes? hex with
+    | some id, some k =>
+      let ids := if st.ids.any (fun x => x.1 == id) then st.ids else st.ids ++ [(id, k)]
+      let st' : DrvState := ⟨ustep st.w (.seen k), ids⟩
+      (st', kernelStr st')
+    | _, _ => (st, "bad-op")
+  | ["utrack", i, e, src, sport, dst, dport] =>
+    match i.toNat?, parseEndian? e, parseAddr? src, sport.toNat?, parseAddr? dst, dport.toNat? with
+    | some i, some e, some s, some sp, some d, some dp =>
+      let st' : DrvState := { st with w := ustep st.w (.track i e ⟨s, sp⟩ ⟨d, dp⟩) }
+      (st', epStr st' i)
+    | _, _, _, _, _, _ => (st, "bad-op")
+  | ["uadopt", i, g] =>
+    match i.toNat?, g.toNat? with
+    | some i, some g => let st' : DrvState := { st with w := ustep st.w (.adopt i g) }; (st', epStr st' i)
+    | _, _ => (st, "bad-op")
+  | ["ufreeze"] => let st' : DrvState := { st with w := ustep st.w .freeze }; (st', kernelStr st')
+  | ["urelease", i] =>
+    match i.toNat? with
+    | some i => let st' : DrvState := { st with w := ustep st.w (.release i) }; (st', epStr st' i)
+    | none => (st, "bad-op")
+  | _ => (st, handle line)
+
+def main : IO Unit := lineLoopS (⟨UWorld.init 0 [0], []⟩ : DrvState) handleS
